@@ -124,6 +124,30 @@ func (a *PrefixAllocator) Contains(prefix *net.IPNet) bool {
 	return ok
 }
 
+// Overlaps reports whether prefix shares addresses with the pool network without
+// being one of the pool's delegations: a prefix of another length that covers the
+// network or lies inside it, or a prefix of the delegated length that Contains
+// rejects. Such a prefix cannot be tracked by the pool, yet the pool would go on
+// delegating prefixes that overlap it.
+func (a *PrefixAllocator) Overlaps(prefix *net.IPNet) bool {
+	if prefix == nil || a.Contains(prefix) {
+		return false
+	}
+	ones, bits := prefix.Mask.Size()
+	if bits != 128 {
+		return false
+	}
+	addr, ok := netip.AddrFromSlice(prefix.IP)
+	if !ok {
+		return false
+	}
+	p, err := addr.Unmap().Prefix(ones)
+	if err != nil {
+		return false
+	}
+	return netip.PrefixFrom(a.base, a.networkBits).Overlaps(p)
+}
+
 func (a *PrefixAllocator) indexToIPNet(idx uint64) *net.IPNet {
 	b := a.base.As16()
 	shift := uint(128 - a.prefixLength)
